@@ -25,8 +25,13 @@ def _worker(job):
             base = o.name.split('/', 1)[1]
             if o.kind == 'post':
                 label = base.split('/')[0]; props = c.props.get(label, props_all)
+            elif o.kind == 'effect':
+                label = 'effects_only_if'; props = c.props.get('effects_only_if', props_all)
             elif o.kind == 'loop':
                 label = o.info.get('label', 'inv'); props = c.props.get('inv:' + label, c.props.get(label, props_all))
+            elif o.kind == 'pre':
+                callee = base.split('[', 1)[1].split(']')[0] if '[' in base else ''
+                label = base; props = c.props.get('pre:' + callee, props_all)
             else:
                 label = base; props = props_all
             out['results'].append({'name': o.name, 'kind': o.kind, 'label': label, 'props': list(props), 'status': r.status,
